@@ -11,15 +11,17 @@
 (* or symbol, asset-style, non-UTF-8) next to a real Stellar asset contract, gas 0 / -1 /    *)
 (* affordable / unaffordable, payer authorised or not.  Gas is finite => finite space.       *)
 EXTENDS ITSMC
-CONSTANT Small
+CONSTANTS Small,
+          Variant   \* "std": canonical tokens = a Stellar asset contract and a metadata-forging token;
+                    \* "itk": the canonical token is an interchain token built from the repository's SOURCE with 0 decimals
 VARIABLE st
 
 MC_Chains == {"ethereum", "avalanche", "polygon", "axelar"}
 MC_Accts == {"alice", "bob", "its", "gs"}
-MC_Ids == {"iA1", "iA2", "iB1", "cS", "cF"}
+MC_Ids == IF Variant = "itk" THEN {"iA1", "iA2", "iB1", "cS"} ELSE {"iA1", "iA2", "iB1", "cS", "cF"}
 MC_IdOf == [alice |-> [s1 |-> "iA1", s2 |-> "iA2"], bob |-> [s1 |-> "iB1"]]
-MC_IdCOf == [sac |-> "cS", fk |-> "cF"]
-MC_Canon == {"sac", "fk"}
+MC_IdCOf == IF Variant = "itk" THEN [x \in {"itk"} |-> "cS"] ELSE [sac |-> "cS", fk |-> "cF"]
+MC_Canon == IF Variant = "itk" THEN {"itk"} ELSE {"sac", "fk"}
 MC_Metas == [good      |-> [nameLen |-> 10, symLen |-> 4,  decimals |-> 7,   utf8 |-> TRUE,  style |-> "ascii"],
              mb255     |-> [nameLen |-> 33, symLen |-> 3,  decimals |-> 255, utf8 |-> TRUE,  style |-> "mb"],
              dec0      |-> [nameLen |-> 1,  symLen |-> 32, decimals |-> 0,   utf8 |-> TRUE,  style |-> "ascii"],
@@ -29,6 +31,7 @@ MC_Metas == [good      |-> [nameLen |-> 10, symLen |-> 4,  decimals |-> 7,   utf
              emptyName |-> [nameLen |-> 0,  symLen |-> 4,  decimals |-> 7,   utf8 |-> TRUE,  style |-> "ascii"],
              emptySym  |-> [nameLen |-> 5,  symLen |-> 0,  decimals |-> 7,   utf8 |-> TRUE,  style |-> "ascii"],
              badutf8   |-> [nameLen |-> 6,  symLen |-> 4,  decimals |-> 7,   utf8 |-> FALSE, style |-> "ascii"],
+             itkMeta   |-> [nameLen |-> 12, symLen |-> 3,  decimals |-> 0,   utf8 |-> TRUE,  style |-> "ascii"],
              sacMeta   |-> [nameLen |-> 6,  symLen |-> 6,  decimals |-> 7,   utf8 |-> TRUE,  style |-> "sac"]]
 MC_Keys == {"k0"}
 MC_Deliveries == [d0 |-> [key |-> "k0", srcChain |-> "axelar", srcAddr |-> "hub", dest |-> "its", payload |-> "p0"]]
@@ -44,7 +47,7 @@ Acts(s) ==
     {[name |-> "DeployInterchainToken", caller |-> "alice", salt |-> "s1", meta |-> m, supply |-> 0, minter |-> "none",
       auth |-> {"alice"}] : m \in IF Small THEN {"mb255"} ELSE {"good", "mb255", "dec0"}}
     \cup {[name |-> "RegisterCanonical", tok |-> t] : t \in Canon}
-    \cup {[name |-> "SetFakeMeta", meta |-> m] : m \in FakeMetas}
+    \cup (IF Variant = "itk" THEN {} ELSE {[name |-> "SetFakeMeta", meta |-> m] : m \in FakeMetas})
     \cup {[name |-> "DeployRemoteInterchainToken", caller |-> c, salt |-> sl, dest |-> d, gas |-> 1, auth |-> {c}] :
             c \in {"alice", "bob"}, sl \in {"s1"}, d \in Dests}
     \cup {[name |-> "DeployRemoteInterchainToken", caller |-> "alice", salt |-> "s2", dest |-> "ethereum", gas |-> 1, auth |-> {"alice"}]}
@@ -57,8 +60,10 @@ Acts(s) ==
     \cup {[name |-> n, chain |-> c, auth |-> {"owner0"}] : n \in {"SetTrusted", "RemoveTrusted"},
             c \in IF Small THEN {"polygon"} ELSE {"polygon", "axelar"}}
 
-InitState == [Blank("owner0") EXCEPT !.trusted["ethereum"] = TRUE, !.gas["alice"] = IF Small THEN 2 ELSE 3,
-                                     !.bal["sac"]["alice"] = 2, !.bal["fk"]["alice"] = 2]
+InitState ==
+    LET base == [Blank("owner0") EXCEPT !.trusted["ethereum"] = TRUE, !.gas["alice"] = IF Small THEN 2 ELSE 3] IN
+    IF Variant = "itk" THEN [base EXCEPT !.bal["itk"]["alice"] = 2]
+    ELSE [base EXCEPT !.bal["sac"]["alice"] = 2, !.bal["fk"]["alice"] = 2]
 Init == st = InitState
 EnabledActs(s) == Acts(s)
 Next == \E a \in EnabledActs(st) : st' = Apply(st, a).post
